@@ -49,6 +49,7 @@ def fixture_values(mod, rnd):
     classes whose own name does not lead back to them."""
     K = mod.K
     good = [K(), K.Inner(), K.Inner.Deep(), mod.Sub(), mod.Plain(), K, K.Inner, K.Inner.Deep, mod.Sub]
+    good += [S() for S in mod.SENTINELS] + list(mod.SENTINELS)
     bad = [c() for c, ok in mod.CLASSES.values() if not ok] + [c for c, ok in mod.CLASSES.values() if not ok]
     out = []
     for pool in (good, good + bad):
@@ -60,6 +61,17 @@ def fixture_values(mod, rnd):
                 [{"a": a}, {"a": b, "b": c}],
             ]))
         out += [[x] for x in pool]
+    return out
+
+
+def sentinel_types(mod):
+    """User classes named like the hidden builtins (and nested controls), alone and under List / Dict / Optional /
+    Type / Union / a TypedDict."""
+    from typing import Dict, List, Optional, Type, Union
+    out = []
+    for S in mod.SENTINELS:
+        out += [S, List[S], Dict[str, S], Optional[S], Type[S], Union[S, int], Dict[str, List[Optional[S]]],
+                typegen.make_td({"a": S}, {"b": Type[S]})]
     return out
 
 
@@ -89,6 +101,8 @@ def type_pool(ctx, rnd, mod):
                 pass                                   # C04's business
     for t in typegen.type_stream(rnd, 250 if quick else 5000):
         out.append((t, SITE_FRESH, "grammar"))
+    for t in sentinel_types(mod):
+        out.append((t, SITE_FRESH, "hidden-builtin namesake"))
     base = list(out)
     rws = rewriters()
     step = 3 if quick else 1
@@ -326,6 +340,12 @@ def _run(ctx, rnd, quick, ct, ft, it, names, mod, CallTraceRow, CallTrace, type_
                     yld = {"absent": None, "none": NoneType, "type": pick()}[ymode]
                     cases.append(_trace_case(CallTrace, CallTraceRow, func, expect, kind, label, args, ret, yld, rmode, ymode,
                                              ct, ft, it, names, dist))
+    # user classes that share a hidden builtin's name, as argument / return / yield types
+    for label in ("mfunc", "K.meth", "lru"):
+        func, expect, kind = mod.FUNCS[label]
+        for X in sentinel_types(mod):
+            cases.append(_trace_case(CallTrace, CallTraceRow, func, expect, kind, label, {"a": X}, X, X,
+                                     "type", "type", ct, ft, it, names, dist))
     # a few traces whose types cannot be serialised (serialize_traces drops them)
     from typing import Tuple
     for label in ("mfunc", "K.meth"):
@@ -391,10 +411,10 @@ def _run(ctx, rnd, quick, ct, ft, it, names, mod, CallTraceRow, CallTrace, type_
     return {
         "evaluations": len(cases), "distinct_nontrivial": distinct,
         "rule": "types: get_type+shrink_types over the C04 value stream and values of the generated fixture package's classes "
-                "(nested, local, rebound, deleted, foreign-module) at every k in {0,1,2,3,10,200}, the typegen grammar stream, every "
+                "(nested, local, rebound, deleted, foreign-module, and user classes named NoneType / NotImplementedType / mappingproxy) at every k in {0,1,2,3,10,200}, the typegen grammar stream, every "
                 "shipped rewriter's output on those, and decoded types re-used as originals, de-duplicated by reified term; each goes "
                 "through type_to_json, type_from_json, re-encoding of the decoded type and encoding of a field-reversed copy. "
-                "decoder edges: directed malformed dicts + single mutations of real encodings. traces: every fixture function kind x "
+                "decoder edges: directed malformed dicts + single mutations of real encodings. traces: every fixture function kind (incl. names bound to non-function wrapper objects: lru_cache, decorator-class instances) x "
                 "return {absent, NoneType, type} x yield {absent, NoneType, type} x 0-3 argument types (half of them TypedDict-bearing); "
                 "every trace is also built the other way round (argument dict in reverse insertion order, every TypedDict's fields "
                 "reversed, same site) and the raw stored strings of the two CallTraceRows must be identical; same raw-text test for "
